@@ -68,6 +68,7 @@ CommandSignature ShellCommand::getSignature() const {
     code = code.combine(std::to_string(int(depsStyle)));
     code = code.combine(int(inheritEnv));
     code = code.combine(int(canSafelyInterrupt));
+    code = code.combine(int(controlEnabled));
   }
   signature = code;
   if (signature.isNull()) {
